@@ -114,7 +114,9 @@ def lexrun(seed, tier, log=print, extra_modes=('p',)):
     lines = []
     for i in accepted:
         lines += P.case_block(str(i), caps[i], corpus[i])
+        lines += caps[i].raw
         lines.append('Q CERT')
+        lines.append('Q PASSES')
         lines.append('Q WF')
         for b in inputs[i]:
             lines.append('Q LEX n ' + P.hexs(b))
